@@ -234,6 +234,9 @@ def run(tier):
             for u in UNKNOWN:
                 wire_reqs.append(([u], [(None, u[1])]))
             for kind in ("RRQ", "WRQ"):
+                if v.enough(100):
+                    break
+
                 def ask(iw, kind=kind):
                     i, (wire, logical) = iw
                     name = "f700.bin" if kind == "RRQ" else f"w{i}.bin"
